@@ -119,8 +119,8 @@ func (s *httpService) Handle(ctx context.Context, conn net.Conn) error {
 
 		body := make([]byte, 1024)
 
-		n, err := req.Body.Read(body)
-		if err == io.EOF {
+		n, err := io.ReadFull(req.Body, body)
+		if err == io.EOF || err == io.ErrUnexpectedEOF {
 		} else if err != nil {
 			return err
 		}
